@@ -21,6 +21,7 @@ import (
 	"github.com/regclient/regclient/types"
 	"github.com/regclient/regclient/types/descriptor"
 	"github.com/regclient/regclient/types/ref"
+	"github.com/regclient/regclient/zz_verif/audit"
 	"github.com/regclient/regclient/zz_verif/evid"
 	"github.com/regclient/regclient/zz_verif/imggen"
 	"github.com/regclient/regclient/zz_verif/rcutil"
@@ -86,6 +87,36 @@ type envB struct {
 	cands         []candidate
 	closeErrs     []string
 	finished      bool
+}
+
+// diag describes the layout at the instant a disappearance is noticed (message only).
+func (e *envB) diag(gone []string) string {
+	var sb strings.Builder
+	sb.WriteString("\n  diagnosis:")
+	for _, d := range head(gone, 4) {
+		if !strings.Contains(d, ":") {
+			continue
+		}
+		_, err := os.Stat(filepath.Join(e.tgt, "blobs", digestKey(d)))
+		fmt.Fprintf(&sb, " stat(%.19s)=%v;", d, err)
+	}
+	v := reach(e.tgt)
+	tags := []string{}
+	for _, en := range v.entries {
+		n, _ := audit.TagOf(en)
+		tags = append(tags, fmt.Sprintf("%s=%.19s", n, en.Digest))
+	}
+	fmt.Fprintf(&sb, " index.json entries now: %v;", tags)
+	for _, d := range head(gone, 4) {
+		_, in := v.info[d]
+		fmt.Fprintf(&sb, " reachable(%.19s)=%v;", d, in)
+	}
+	st := []string{}
+	for j, cs := range e.copies {
+		st = append(st, fmt.Sprintf("#%d started=%v done=%v err=%v", j, cs.started, cs.done, cs.err != nil))
+	}
+	fmt.Fprintf(&sb, " copies: %v; closes from inside copies so far: %d", st, e.closesInCopy)
+	return sb.String()
 }
 
 func (e *envB) hasIndex() bool {
@@ -200,8 +231,8 @@ func (e *envB) observe(i int, what string, tagWritten bool) {
 		}
 		if len(gone) > 0 {
 			sort.Strings(gone)
-			e.addCand(i, late, "file-disappeared-during-copy", fmt.Sprintf("while ImageCopy #%d (node %d -> tag %s) was in progress, %d file(s) under blobs/ that were there at an earlier instant of the same copy are gone at %s: %v",
-				i, e.c.Copies[i].Node, copyTag(i), len(gone), what, head(gone, 4)))
+			e.addCand(i, late, "file-disappeared-during-copy", fmt.Sprintf("while ImageCopy #%d (node %d -> tag %s) was in progress, %d file(s) under blobs/ that were there at an earlier instant of the same copy are gone at %s: %v%s",
+				i, e.c.Copies[i].Node, copyTag(i), len(gone), what, head(gone, 4), e.diag(gone)))
 		}
 	}
 	for d := range files {
